@@ -454,3 +454,34 @@ Fixpoint bad_nested (l : list item) : bool :=
   | ICast d _ _ _ :: r => existsb (loop_out d) r || bad_nested r
   | x :: r => bad_nested_item x || bad_nested r
   end.
+
+(* the FIRST use of a cast in walk order is an input use inside a loop below the cast's block: the copy-in
+   is placed inside the loop body and never runs when the loop has zero iterations, so a later reader
+   outside the loop sees the uninitialised buffer *)
+Fixpoint first_in_loop (d : nat) (r : list item) : bool :=
+  match r with
+  | [] => false
+  | x :: r' =>
+      if item_used d x
+      then match x with
+           | ILoop _ _ => match walk_flags_item d x with f :: _ => fst f | [] => false end
+           | _ => false
+           end
+      else first_in_loop d r'
+  end.
+Fixpoint bad_nested_in_item (it : item) : bool :=
+  match it with
+  | ILoop _ body => (fix go (l : list item) : bool :=
+                       match l with
+                       | [] => false
+                       | ICast d _ _ _ :: r => first_in_loop d r || go r
+                       | x :: r => bad_nested_in_item x || go r
+                       end) body
+  | _ => false
+  end.
+Fixpoint bad_nested_in (l : list item) : bool :=
+  match l with
+  | [] => false
+  | ICast d _ _ _ :: r => first_in_loop d r || bad_nested_in r
+  | x :: r => bad_nested_in_item x || bad_nested_in r
+  end.
